@@ -180,7 +180,7 @@ static void part_b(report& r, bool thorough)
         {
             for (sz a = 0; a != alpha.size(); ++a)
             {
-                sz const kmax = plen <= 1 ? (thorough ? 10000000 : 1000000) : (plen == 2 ? 100000 : 10000);
+                sz const kmax = plen <= 1 ? (thorough ? 10000000 : 100000) : (plen == 2 ? (thorough ? 100000 : 10000) : 10000);
                 for (sz k = 10; k <= kmax; k *= 10)
                 {
                     std::string const id = tn + " block prefix=" + vf::join(idx) + " a=" + std::to_string(a) + " k=" + std::to_string(k);
@@ -229,7 +229,7 @@ static void part_c(report& r, bool thorough)
     };
     for (auto const& f : fams)
     {
-        for (sz n = 1; n <= (thorough ? 10000000 : 1000000); n *= 10)
+        for (sz n = 1; n <= (thorough ? 10000000 : 100000); n *= 10)
         {
             std::string const id = tn + " family " + f.name + " N=" + std::to_string(n);
             if (!r.want(id)) continue;
